@@ -1,275 +1,43 @@
 // C10 — HTTP/2 relay terminates and releases both connections whichever side ends.
 //
 // The real h2.Config.Proxy runs between two frame-level endpoints over simnet under the gosim scheduler.
-// For every terminating event (client closes, server closes, write failure toward either side, malformed
-// frame from either side, bad preface, proxy shutdown) in every session state (idle, mid-stream, DATA
-// blocked on a zero window with trailers queued, output channel full because the peer stopped reading)
-// and every schedule within the deviation bound, at quiescence (no virtual time elapsed) Config.Proxy must
-// have returned, the upstream connection it dialled must be closed, and no thread it spawned may be alive.
+// For every terminating event (client or server closing - FIN, half-close, RST, in the middle of a frame -,
+// write failure toward either side, protocol error from either side found by the framer, by the relay's own
+// processing or by a stream processor, bad preface, proxy shutdown, and pairs of these at once) in every session
+// state (before / in the middle of the preface, before SETTINGS, idle, mid-stream, DATA blocked on a zero stream
+// window in either direction or on the connection window, more queued frames than the output channel holds with
+// the window opening, writer blocked on a peer that stopped reading with the output channel not yet full / full,
+// every position of a traffic script with frames in flight), with reactive and with passive peers, with and
+// without stream processors, and every schedule within the deviation bound: at quiescence (no virtual time
+// elapsed) Config.Proxy must have returned, the upstream connection it dialled must have been closed no later
+// than the return, and no thread it spawned may be alive.
+//
+// Files: scen.go (states, events, oracle), list.go (the scenario families of the two tiers), AUDIT.md (what is
+// covered, by which scenario, judged by which clause). Development aids: VERIF_C10_ONLY=<regexp> restricts the run
+// to matching scenarios, VERIF_C10_BOUND=<n> overrides their bound, VERIF_C10_STATS=1 prints per-scenario counts.
 package main
 
 import (
 	"encoding/json"
 	"fmt"
 	"os"
+	"path/filepath"
+	"regexp"
 	"sort"
-	"strings"
 	"time"
 
 	"github.com/google/martian/v3/zzverif/vrt"
 
-	hw "verif/checks/h2world"
 	"verif/lib"
 )
 
-type scenario struct {
-	Event string `json:"event"` // client_close server_close write_err_client write_err_server bad_frame_client bad_frame_server shutdown bad_preface dial_error
-	State string `json:"state"` // idle midstream blocked output_full
-	Bound int    `json:"bound"`
-}
-
-type finding struct{ Sig, Desc string }
-
-var reqF = [][2]string{{":method", "POST"}, {":scheme", "https"}, {":path", "/m"}, {":authority", "o"}}
-var resF = [][2]string{{":status", "200"}}
-
-// a SETTINGS frame with an illegal length (5): protocol error at the relay's framer
-var badFrame = []byte{0, 0, 5, 4, 0, 0, 0, 0, 0, 1, 2, 3, 4, 5}
-
-func run(sc scenario) (body func(), check func(r *vrt.Result) []finding) {
-	var w *hw.World
-	var snapThreads []vrt.ThreadInfo
-	var upstreamClosed, returned bool
-	var dialled bool
-	body = func() {
-		opt := hw.Options{}
-		if sc.State == "output_full" {
-			opt.NoServerReader = true
-			opt.ProxyToServerCap = 64
-		}
-		if sc.State == "client_stalled" {
-			opt.NoClientReader = true
-			opt.ProxyToClientCap = 64
-		}
-		if sc.Event == "dial_error" {
-			opt.DialErr = fmt.Errorf("simulated dial failure")
-		}
-		w = hw.New(opt)
-		// endpoints behave like real peers: when their reader ends (EOF / error) they close their side
-		if sc.Event == "bad_preface" {
-			w.Client.Conn.Write([]byte("GET / HTTP/1.1\r\nHost: x\r\n\r\n"))
-		} else if sc.State == "mid_preface" {
-			w.Client.Conn.Write([]byte(hw.Preface[:10])) // the session ends while the relay still waits for the rest
-		} else {
-			w.Client.WritePreface(0)
-		}
-		vrt.WaitQuiescent()
-		dialled = w.Server != nil
-		if dialled && sc.Event != "bad_preface" && sc.State != "mid_preface" && sc.State != "pre_settings" {
-			w.Client.Write(hw.Spec{T: "settings"})
-			w.Server.Write(hw.Spec{T: "settings"})
-			vrt.WaitQuiescent()
-			switch sc.State {
-			case "midstream":
-				w.Client.Write(hw.Spec{T: "headers", Stream: 1, Fields: reqF})
-				w.Client.Write(hw.Spec{T: "data", Stream: 1, Len: 5})
-				vrt.WaitQuiescent()
-				w.Server.Write(hw.Spec{T: "headers", Stream: 1, Fields: resF})
-				w.Server.Write(hw.Spec{T: "data", Stream: 1, Len: 7})
-				vrt.WaitQuiescent()
-			case "blocked":
-				w.Server.Write(hw.Spec{T: "settings", Settings: [][2]uint32{{4, 0}}})
-				vrt.WaitQuiescent()
-				w.Client.Write(hw.Spec{T: "headers", Stream: 1, Fields: reqF})
-				w.Client.Write(hw.Spec{T: "data", Stream: 1, Len: 5})
-				w.Client.Write(hw.Spec{T: "headers", Stream: 1, Fields: [][2]string{{"x-t", "1"}}, EndStream: true})
-				vrt.WaitQuiescent()
-			case "output_full":
-				// the server has stopped reading: the relay's writer blocks, then its 15-slot output channel fills
-				t := vrt.GoNamed("client-flood", func() {
-					for i := 0; i < 24; i++ {
-						if w.Client.Write(hw.Spec{T: "priority", Stream: uint32(2*i + 1), Prio: true, Weight: 9}) != nil {
-							return
-						}
-					}
-				})
-				_ = t
-				vrt.WaitQuiescent()
-			case "client_stalled":
-				// mirror image: the client has stopped reading, the server floods, the server->client writer blocks
-				vrt.GoNamed("server-flood", func() {
-					for i := 0; i < 24; i++ {
-						if w.Server.Write(hw.Spec{T: "priority", Stream: uint32(2*i + 1), Prio: true, Weight: 9}) != nil {
-							return
-						}
-					}
-				})
-				vrt.WaitQuiescent()
-			}
-		}
-		// peers react to EOF by closing
-		vrt.GoNamed("client-peer", func() {
-			if sc.State == "client_stalled" {
-				return // a stuck peer does nothing
-			}
-			vrt.WaitUntil("client-reader-end", func() bool { return w.Client.RdDone })
-			w.Client.Conn.Close()
-		})
-		if dialled {
-			vrt.GoNamed("server-peer", func() {
-				if sc.State == "output_full" {
-					return // a stuck peer does nothing
-				}
-				vrt.WaitUntil("server-reader-end", func() bool { return w.Server.RdDone })
-				w.Server.Conn.Close()
-			})
-		}
-		// the terminating event
-		switch sc.Event {
-		case "client_close":
-			w.Client.Conn.Close()
-		case "server_close":
-			if dialled {
-				w.Server.Conn.Close()
-			}
-		case "write_err_client":
-			w.ClientProxy.FailWriteAfter = 0
-			if dialled {
-				w.Server.Write(hw.Spec{T: "ping", Ping: "pingping"})
-			}
-		case "write_err_server":
-			if dialled {
-				w.ServerProxy.FailWriteAfter = 0
-			}
-			w.Client.Write(hw.Spec{T: "ping", Ping: "pingping"})
-		case "write_err_client_wu", "write_err_server_fwd":
-			// the failing write is not a forwarded PING but what a DATA frame from the client causes: the
-			// WINDOW_UPDATE acknowledging it toward the client (written by the client->server reader under the
-			// peer relay's write lock) or the forwarded DATA toward the server (written by the writer goroutine);
-			// the other direction has a PING to deliver to the same peer at the same time
-			if sc.Event == "write_err_client_wu" {
-				w.ClientProxy.FailWriteAfter = 0
-			} else if dialled {
-				w.ServerProxy.FailWriteAfter = 0
-			}
-			if dialled && sc.Event == "write_err_client_wu" {
-				vrt.GoNamed("server-ping", func() { w.Server.Write(hw.Spec{T: "ping", Ping: "pingping"}) })
-			}
-			if sc.State == "idle" {
-				w.Client.Write(hw.Spec{T: "headers", Stream: 1, Fields: reqF})
-			}
-			w.Client.Write(hw.Spec{T: "data", Stream: 1, Len: 9})
-		case "write_err_server_wu", "write_err_client_fwd":
-			// mirror image: a DATA frame from the server (state midstream: stream 1 is open both ways)
-			if sc.Event == "write_err_server_wu" {
-				w.ServerProxy.FailWriteAfter = 0
-				vrt.GoNamed("client-ping", func() { w.Client.Write(hw.Spec{T: "ping", Ping: "pingping"}) })
-			} else {
-				w.ClientProxy.FailWriteAfter = 0
-			}
-			w.Server.Write(hw.Spec{T: "data", Stream: 1, Len: 9})
-		case "bad_frame_client":
-			w.Client.Write(hw.Spec{T: "raw", Raw: badFrame})
-		case "bad_frame_server":
-			if dialled {
-				w.Server.Write(hw.Spec{T: "raw", Raw: badFrame})
-			}
-		case "shutdown":
-			w.Closing.Close()
-		}
-		vrt.WaitQuiescent()
-		returned = w.ProxyRet
-		upstreamClosed = w.ServerProxy == nil || w.ServerProxy.Closed()
-		snapThreads = vrt.Snapshot()
-		var alive []string
-		for _, t := range snapThreads {
-			if !t.Done && strings.HasPrefix(t.Label, "h2.") {
-				alive = append(alive, t.Label+"@"+t.Blocked)
-			}
-		}
-		sort.Strings(alive)
-		vrt.Log("returned=%v upstreamClosed=%v alive=%v errors=%d", returned, upstreamClosed, alive, len(w.Errors))
-	}
-	check = func(r *vrt.Result) []finding {
-		var out []finding
-		add := func(sym, format string, a ...interface{}) {
-			out = append(out, finding{sym + ":" + sc.Event + ":" + sc.State, fmt.Sprintf(format, a...)})
-		}
-		if r.Outcome != "ok" {
-			add("outcome_"+r.Outcome, "execution ended with %s: %s", r.Outcome, firstLine(r.Panic))
-			return out
-		}
-		if !returned {
-			add("proxy_not_returned", "Config.Proxy had not returned at quiescence after the terminating event")
-		}
-		if !upstreamClosed {
-			add("upstream_not_closed", "the upstream connection opened by Config.Proxy was not closed (proxy returned=%v)", returned)
-		}
-		labels := map[string]bool{}
-		for _, t := range snapThreads {
-			if !t.Done && strings.HasPrefix(t.Label, "h2.") {
-				op := t.Blocked
-				if i := strings.IndexByte(op, ' '); i > 0 {
-					op = op[:i]
-				}
-				labels[strings.TrimPrefix(t.Label, "h2.")+"@"+op] = true
-			}
-		}
-		if len(labels) > 0 && returned {
-			var ls []string
-			for l := range labels {
-				ls = append(ls, l)
-			}
-			sort.Strings(ls)
-			add("threads_left_after_return", "Config.Proxy returned but threads of the session are still blocked: %v", ls)
-		}
-		return out
-	}
-	return
-}
-
-func firstLine(s string) string {
-	if i := strings.IndexByte(s, '\n'); i >= 0 {
-		return s[:i]
-	}
-	return s
-}
-
-func scenarios(tier string) []scenario {
-	var out []scenario
-	b := 2
-	if tier == "thorough" {
-		b = 3
-	}
-	for _, ev := range []string{"client_close", "server_close", "write_err_client", "write_err_server", "bad_frame_client", "bad_frame_server", "shutdown"} {
-		for _, st := range []string{"idle", "midstream", "blocked", "output_full", "client_stalled"} {
-			sb := b
-			if st == "output_full" || st == "client_stalled" {
-				sb = b - 1 // many more threads and points in the flooded states
-			}
-			if tier == "thorough" && (st == "midstream" || st == "blocked") {
-				sb = 2 // three deviations do not complete within minutes in these states (measured); the flooded states run one deviation more than in quick
-			}
-			out = append(out, scenario{Event: ev, State: st, Bound: sb})
-		}
-	}
-	for _, st := range []string{"idle", "midstream"} {
-		wb := b
-		if st == "midstream" {
-			wb = 2
-		}
-		out = append(out, scenario{Event: "write_err_client_wu", State: st, Bound: wb}, scenario{Event: "write_err_server_fwd", State: st, Bound: wb})
-	}
-	out = append(out, scenario{Event: "write_err_server_wu", State: "midstream", Bound: 2}, scenario{Event: "write_err_client_fwd", State: "midstream", Bound: 2})
-	// the session ends before it is fully set up: in the middle of the client preface, or after the preface but
-	// before any SETTINGS frame
-	for _, st := range []string{"mid_preface", "pre_settings"} {
-		for _, ev := range []string{"client_close", "server_close", "shutdown", "bad_frame_client"} {
-			out = append(out, scenario{Event: ev, State: st, Bound: b})
-		}
-	}
-	out = append(out, scenario{Event: "bad_preface", State: "idle", Bound: b}, scenario{Event: "dial_error", State: "idle", Bound: b})
-	return out
+type scenStat struct {
+	Scenario string
+	Execs    int
+	Points   int64
+	Outcomes int
+	WallMs   int64
+	Complete bool
 }
 
 type shardOut struct {
@@ -277,11 +45,44 @@ type shardOut struct {
 	Violations []lib.Violation
 	Samples    []interface{}
 	Incomplete string
+	Stats      []scenStat
+}
+
+// claim makes the 16 worker processes share one work list: a scenario belongs to the worker that creates its
+// marker file first. Every scenario is explored completely by exactly one worker, so the totals do not depend on
+// who took what.
+func claim(dir string, idx int) bool {
+	f, err := os.OpenFile(filepath.Join(dir, fmt.Sprintf("claim-%04d", idx)), os.O_CREATE|os.O_EXCL|os.O_WRONLY, 0o644)
+	if err != nil {
+		return false
+	}
+	f.Close()
+	return true
 }
 
 func main() {
 	tier := lib.Tier()
 	scen := scenarios(tier)
+	if only := os.Getenv("VERIF_C10_ONLY"); only != "" {
+		// development aid: restrict the run to the scenarios whose description matches
+		re := regexp.MustCompile(only)
+		var keep []scenario
+		for _, sc := range scen {
+			if re.MatchString(sc.String()) {
+				keep = append(keep, sc)
+			}
+		}
+		scen = keep
+	}
+	if bs := os.Getenv("VERIF_C10_BOUND"); bs != "" {
+		// development aid: run the selected scenarios with another deviation bound
+		var b int
+		if _, err := fmt.Sscanf(bs, "%d", &b); err == nil {
+			for i := range scen {
+				scen[i].Bound = b
+			}
+		}
+	}
 	if rp := os.Getenv("VERIF_REPLAY"); rp != "" {
 		var doc struct {
 			First struct {
@@ -317,18 +118,20 @@ func main() {
 		}
 		return
 	}
-	if i, n := lib.ShardEnv(); n > 0 {
+	if _, n := lib.ShardEnv(); n > 0 {
 		out := &shardOut{Counters: map[string]int64{}}
-		per := 40 * time.Second
+		per := 120 * time.Second // a safety net, not a budget: the bounds in list.go are chosen so that no scenario comes near it
 		if tier == "thorough" {
-			per = 4 * time.Minute
+			per = 6 * time.Minute
 		}
+		dir := filepath.Dir(os.Getenv("VERIF_SHARD_OUT"))
 		for si, sc := range scen {
-			if si%n != i {
+			if !claim(dir, si) {
 				continue
 			}
 			body, check := run(sc)
 			seen := map[string]bool{}
+			t0 := time.Now()
 			st := vrt.Explore(vrt.ExploreConfig{Bound: sc.Bound, Deadline: time.Now().Add(per), Config: vrt.Config{MaxPoints: 400000}}, body, func(prefix []int, r *vrt.Result) bool {
 				for _, f := range check(r) {
 					if !seen[f.Sig] {
@@ -337,7 +140,7 @@ func main() {
 							fmt.Fprintln(os.Stderr, "ENGINE ERROR:", err)
 							os.Exit(2)
 						}
-						out.Violations = append(out.Violations, lib.Violation{Sig: f.Sig, Desc: fmt.Sprintf("event %s in state %s, schedule %v: %s", sc.Event, sc.State, r.ChoiceSeq(), f.Desc),
+						out.Violations = append(out.Violations, lib.Violation{Sig: f.Sig, Desc: fmt.Sprintf("event %s in state %s, schedule %v: %s", sc.Event, sc.stateName(), r.ChoiceSeq(), f.Desc),
 							Replay: map[string]interface{}{"scenario": sc, "schedule": r.ChoiceSeq(), "log": r.Log}})
 					}
 				}
@@ -352,12 +155,16 @@ func main() {
 			out.Counters["points"] += st.Points
 			out.Counters["distinct_outcomes"] += int64(st.DistinctLogs)
 			out.Counters["horizon_hits"] += int64(st.HorizonHits)
+			if st.Execs > 1 {
+				out.Counters["scenarios_with_deviating_schedules"]++
+			}
 			if st.DistinctLogs > 1 {
 				out.Counters["scenarios_with_multiple_outcomes"]++
 			}
 			if !st.Exhaustive {
-				out.Incomplete = fmt.Sprintf("scenario %s/%s: cap hit, bound completed %d", sc.Event, sc.State, st.BoundCompleted)
+				out.Incomplete = fmt.Sprintf("scenario %s: cap hit, bound completed %d", sc, st.BoundCompleted)
 			}
+			out.Stats = append(out.Stats, scenStat{sc.String(), st.Execs, st.Points, st.DistinctLogs, time.Since(t0).Milliseconds(), st.Exhaustive})
 			if len(out.Samples) < 1 {
 				out.Samples = append(out.Samples, map[string]interface{}{"scenario": sc, "executions": st.Execs, "distinct_outcomes": st.DistinctLogs})
 			}
@@ -368,6 +175,7 @@ func main() {
 	}
 	rep := lib.NewReport("C10", "model_checking")
 	files, errs, outs := lib.RunShards(16, lib.Root+"/.build/c10/shards")
+	var stats []scenStat
 	for i, f := range files {
 		if errs[i] != nil {
 			fmt.Fprintf(os.Stderr, "shard %d failed: %v\n%s\n", i, errs[i], outs[i])
@@ -391,12 +199,36 @@ func main() {
 		if so.Incomplete != "" {
 			rep.Incomplete = so.Incomplete
 		}
+		stats = append(stats, so.Stats...)
 	}
+	if int(rep.Counter("scenarios")) != len(scen) {
+		fmt.Fprintf(os.Stderr, "work sharing lost scenarios: %d of %d ran\n", rep.Counter("scenarios"), len(scen))
+		os.Exit(2)
+	}
+	sort.Slice(stats, func(i, j int) bool {
+		if stats[i].WallMs != stats[j].WallMs {
+			return stats[i].WallMs > stats[j].WallMs
+		}
+		return stats[i].Scenario < stats[j].Scenario
+	})
+	if os.Getenv("VERIF_C10_STATS") != "" {
+		for _, s := range stats {
+			fmt.Fprintf(os.Stderr, "stat %-72s execs=%-7d outcomes=%-2d wall=%dms complete=%v\n", s.Scenario, s.Execs, s.Outcomes, s.WallMs, s.Complete)
+		}
+	}
+	var slowest []string
+	for i := 0; i < len(stats) && i < 5; i++ {
+		slowest = append(slowest, fmt.Sprintf("%s: %d executions, %d ms", stats[i].Scenario, stats[i].Execs, stats[i].WallMs))
+	}
+	rep.Coverage["slowest_scenarios"] = slowest
 	rep.Coverage["states"] = rep.Counter("distinct_outcomes")
 	rep.Coverage["transitions"] = rep.Counter("points")
 	rep.Coverage["traces_validated_against_impl"] = rep.Counter("executions")
+	rep.Coverage["evaluations"] = rep.Counter("executions")
+	rep.Coverage["distinct_nontrivial"] = rep.Counter("scenarios_with_deviating_schedules")
+	rep.Coverage["rule"] = "a case is a scenario (terminating event or event combination x session state x script position x processor setting) together with every schedule of it within the deviation bound; a scenario counts as non-trivial when the explorer found more than one schedule of it (the terminating event is then observed at different points of the relay's work)"
 	rep.Coverage["exhaustive"] = rep.Incomplete == ""
-	rep.Coverage["bounds"] = fmt.Sprintf("%d scenarios = 7 terminating events x 5 session states + bad preface + dial error; every schedule with <= %d deviations", len(scen), scen[0].Bound)
+	rep.Coverage["bounds"] = boundsText(tier, scen)
 	rep.Coverage["explanation"] = "each execution runs the real h2 relay between frame-level endpoints that close their side when they observe EOF/error; the oracle is evaluated at the first quiescent point after the terminating event with zero virtual time elapsed"
 	rep.Assumptions = []string{"TLS is replaced by the dial seam (no close_notify)", "a peer that stopped reading never closes"}
 	rep.Finish()
